@@ -61,6 +61,14 @@ var c20Fixed = []string{
 	`(defmac w1 [x] ^(+ 1 ~x)) (defmac w2 [x] ^(w1 (w1 (w1 ~x)))) (defmac w3 [x] ^(w2 (w2 (w2 ~x)))) (w3 (w3 (w3 0)))`,
 	`(defmac selfm [x] ^(selfm ~x)) (selfm 1)`,
 	`(defmac badm [x] ^(let [q] ~x)) (badm 1)`,
+	// copies of records: key order of the copy
+	`(struct PtC20a [(field x: int64) (field y: int64) (field z: int64) (field w: int64) (field v: int64)]) (def a (PtC20a x:1 y:2 z:3 w:4 v:5)) (def pa (& a)) (derefSet pa (PtC20a w:40 z:30 v:50 y:20 x:10)) (str [a (keys a)])`,
+	`(def src (hash q: 1 b: 2 m: 3 a: 4 z: 5 k: [1 2])) (def cp (hash)) (range k v src (hset cp k v)) (hdel cp m:) (list (str cp) (keys cp) (raw2str (json cp)) (hpair cp 0))`,
+	// keys that are absent, probed with keys of another type whose hash value may collide (symbol numbers of builtins are small integers)
+	`(def h (hash)) (for [(def i 0) (< i 250) (def i (+ i 1))] (hset h i (* i 10))) (def g (hash first: "a" rest: "b" println: "c" cons: "d")) (def hits []) (for [(def i 0) (< i 250) (def i (+ i 1))] (cond (== (hget g i "none") "none") nil (set hits (append hits i)))) (str [(hget h (quote println) -1) (hget h (quote cons) -1) (hget h (quote hset) -1) (hget h (quote first) -1) hits])`,
+	`(def h (hash 1 "one" 2 "two" "1" "s-one" a: "sym-a")) (list (hget h 1 "d") (hget h "1" "d") (hget h (quote a) "d") (hget h "a" "d") (hget h 3 "d") (hget h (quote hget) "d") (hget h 1.0 "d"))`,
+	// printing of nested containers, whatever display settings other interpreters chose
+	`(def h (hash a: 1 b: [1 2 3] c: (hash d: "x" e: 2.5))) (println h) (println [1 [2 3] (hash k: 1)]) (str [h (keys h)])`,
 }
 
 // noise: what other interpreters of the same process did before
@@ -85,6 +93,9 @@ var c20Noise = []string{
 	// in-place edits of lists a builtin handed out
 	`(def ml (methodls (c10outer))) (aset ml 0 "edited") (def fl (fieldls (c10outer))) (aset fl 0 "edited") (def kl (keys (hash a: 1))) (aset kl 0 (quote edited))`,
 	`(def ml (methodls (c10inner))) (aset ml 0 "edited") (def so [3 1 2]) (sort so) (aset so 0 99)`,
+	// display and debugging settings chosen by another interpreter
+	`(pretty true) (def h (hash a: 1 b: [1 2])) (str h) (println h)`,
+	`(pretty true) (pretty false) (pretty true)`,
 }
 
 var (
